@@ -5,7 +5,7 @@ from vlib.skyb import hx
 PID = "C01"
 LEAN_MODULE = "Sb.Properties.C01Corollaries"
 THEOREMS = ["Sb.C01.secF32_close", 
-    "Sb.C01.constants", "Sb.C01.makeBezier_eq_bernstein", "Sb.C01.init_header", "Sb.C01.position_eq_spec",
+    "Sb.C01.constants", "Sb.C01.segment_formats_match_format", "Sb.C01.numCoords_of_flags", "Sb.C01.makeBezier_eq_bernstein", "Sb.C01.init_header", "Sb.C01.position_eq_spec",
     "Sb.C01.duration_eq_sum", "Sb.C01.yaw_in_range",
     "Sb.Proofs.buildSegment_spec", "Sb.Proofs.seek_pos_spec", "Sb.Proofs.durLoop_spec", "Sb.Proofs.bezier_zero", "Sb.Proofs.bezier_one",
     "Sb.Proofs.bezier8", "Sb.Proofs.bezier4", "Sb.Proofs.fac_vals",
